@@ -349,6 +349,16 @@ def check_trace(ctx, c, case, key, side, g, tg, src_record, written):
 def one_case(ctx, k):
     rng = ctx.rng("c03", k)
     c = gen_case(rng)
+    if (k % 100000) % 40 == 3 and c["recs1"]:
+        # long reads (tens of thousands of bases on one side of the adapter occurrences): the same rules at any length
+        ctx.count("cases_with_reads_over_65536_bases")
+        for j in range(min(2, len(c["recs1"]))):
+            name, s_, q_ = c["recs1"][j]
+            extra = G.rnd(rng, rng.randint(66000, 72000))
+            s_ = s_ + extra if j == 0 else extra + s_
+            if q_ is not None:
+                q_ = q_ + "I" * len(extra) if j == 0 else "I" * len(extra) + q_
+            c["recs1"][j] = (name, s_, q_)
     d = os.path.join(ctx.scratch, f"c{k}")
     os.makedirs(d, exist_ok=True)
     try:
